@@ -92,11 +92,19 @@ fn classify(text: &str) -> Class {
             if n.is_empty() || n.len() > 128 {
                 return Class::Bad("a name is not 1..128 bytes");
             }
+            // key text with whitespace inside: whether a tolerant reader may accept it is left open
+            let ws = |v: &str| v.chars().any(|c| c.is_whitespace());
             if !pk_well_formed(&s.pks[0]) {
+                if ws(&s.pks[0]) {
+                    return Class::Open;
+                }
                 return Class::Bad("a public key is malformed");
             }
             if let Some(sk) = s.sks.first() {
                 if !sk_well_formed(sk) {
+                    if ws(sk) {
+                        return Class::Open;
+                    }
                     return Class::Bad("a private key is malformed");
                 }
             }
@@ -212,6 +220,7 @@ fn alphabet(seed: u64) -> Alpha {
         "# c".to_string(),
         "".to_string(),
         "junk".to_string(),
+        format!("PublicKey = {} {}", &k2[..20], &k2[20..]),
     ];
     Alpha { tokens, names: vec!["a", "b", "", "c"], pks: vec![k1, k2] }
 }
@@ -309,6 +318,18 @@ fn pubkey_case(rep: &Report, s: &str) {
     match got {
         Err(m) => rep.violation("pubkey/panic", case, format!("panic decoding {:?}: {}", s, m)),
         Ok(g) => {
+            // whitespace inside the text: a tolerant decoder may accept it, but then it must decode to the same key
+            let stripped: String = s.chars().filter(|c| !c.is_whitespace()).collect();
+            if stripped != s {
+                if let (Some(gk), Some(wk)) = (&g, r::decode_pk(&stripped)) {
+                    if gk[..] == wk[..] {
+                        return;
+                    }
+                }
+                if g.is_none() {
+                    return;
+                }
+            }
             if g.as_deref() != want.as_ref().map(|k| &k[..]) {
                 rep.violation(
                     if g.is_some() { "pubkey/accepted-bad-checksum-or-format" } else { "pubkey/rejected-valid" },
@@ -322,7 +343,7 @@ fn pubkey_case(rep: &Report, s: &str) {
 
 pub fn run(rep: &'static Report) {
     let seed = rep.seed;
-    rep.set_rule("E-GRID: every sequence of <= 6 (quick) / 7 (thorough) lines over a 13-token alphabet (with/without final newline), every sequence of <= 4 lines over a reduced alphabet with line decorations, the serialize->parse round trip for every name of <= 3 characters over a 9-character alphabet and boundary lengths, and every single-character substitution / checksum perturbation of encoded public keys; each text is parsed by the real parser and compared with REF's reading. distinct non-trivial = texts that REF classifies as well-formed or as unambiguously bad (the others only check 'no crash') + round-trip names + key strings");
+    rep.set_rule("E-GRID: every sequence of <= 6 (quick) / 7 (thorough) lines over a 14-token alphabet (with/without final newline), every sequence of <= 4 lines over a reduced alphabet with line decorations, the serialize->parse round trip for every name of <= 3 characters over a 9-character alphabet and boundary lengths, and every single-character substitution / checksum perturbation of encoded public keys; each text is parsed by the real parser and compared with REF's reading. distinct non-trivial = texts that REF classifies as well-formed or as unambiguously bad (the others only check 'no crash') + round-trip names + key strings");
     rep.assume("the statement gives necessary conditions for acceptance: texts using constructs it leaves open (duplicate fields in a section, fields outside a section, junk lines, no section) are only checked for 'no crash'");
     let al = alphabet(seed);
     let counter = AtomicU64::new(0);
@@ -460,6 +481,14 @@ pub fn run(rep: &'static Report) {
     }
     for n in 0..=60usize {
         strs.push("A".repeat(n));
+    }
+    // single-character insertions
+    for i in 0..=valid.len() {
+        for c in [' ', '\n', '\t', '=', 'A', '\u{e9}'] {
+            let mut v = valid.clone();
+            v.insert(i, c);
+            strs.push(v.into_iter().collect());
+        }
     }
     strs.sort();
     strs.dedup();
